@@ -172,7 +172,7 @@ typedef struct {
   size_t size;
   int dec, flags;
   void (*custom)(const void*, char*, size_t);
-  char shadow[256];
+  char shadow[1024];
 } fld_t;
 static obj_t g_obj[MAXOBJ];
 static int g_nobj;
@@ -409,7 +409,7 @@ static void emit_init_fields(int from) {
   buf_printf("{\"i\":%ld,\"k\":\"reg\",\"t\":\"t%d\",\"w\":[", g_evno++, self ? self->idx : 0);
   int first = 1;
   for (int i = from; i < g_nfld; i++) {
-    char v[256];
+    char v[1024];
     render(&g_fld[i], v, sizeof v);
     snprintf(g_fld[i].shadow, sizeof g_fld[i].shadow, "%s", v);
     buf_printf("%s[\"%s\",\"%s\",%s]", first ? "" : ",", g_obj[g_fld[i].obj].name, g_fld[i].fname, v);
@@ -579,7 +579,7 @@ static void diff_and_emit(vthread_t* s, int force) {
   int changed = 0, progress = 0;
   for (int i = 0; i < g_nfld; i++) {
     fld_t* f = &g_fld[i];
-    char v[256];
+    char v[1024];
     render(f, v, sizeof v);
     if (strcmp(v, f->shadow)) {
       n += (size_t)snprintf(line + n, sizeof line - n, "%s[\"%s\",\"%s\",%s]", changed ? "," : "",
